@@ -2,7 +2,10 @@ package harness
 
 import (
 	"fmt"
+	"sort"
 	"strings"
+
+	"git.metabarcoding.org/obitools/obitools4/obitools4/pkg/obitools/obiannotate"
 
 	"git.metabarcoding.org/obitools/obitools4/obitools4/pkg/obiapat"
 	"git.metabarcoding.org/obitools/obitools4/obitools4/pkg/obiiter"
@@ -74,7 +77,95 @@ func drawPredicate(t *simrt.Tape) predAtom {
 	return a
 }
 
+// c05LibraryWorker: an annotating worker the commands build from their options, applied by
+// MakeIWorker with several workers; every record must come out as the same worker (a second
+// instance) leaves a private copy of it when applied sequentially.
+func c05LibraryWorker(rc *RunCtx, t *simrt.Tape) {
+	n := 20 + t.Choose(80)
+	recs := annotatedRecs(t, n, false)
+	var sizes []int
+	for rem := n; rem > 0; {
+		sz := 1 + t.Choose(minI(4, rem))
+		sizes = append(sizes, sz)
+		rem -= sz
+	}
+	arrival := drawPerm(t, len(sizes))
+	pat := []string{"acgtr", "ggnnc", "ttyaacg", "catgwa", "wwsssn", "acgdhtt"}[t.Choose(6)]
+	e := 1 + t.Choose(2)
+	both := t.Choose(3) != 0
+	indel := t.Choose(2) == 1
+	text := fmt.Sprintf("MatchPatternWorker(%s,e=%d,both=%v,indel=%v)", pat, e, both, indel)
+	mk := func() obiseq.SeqWorker { return obiannotate.MatchPatternWorker(pat, "", e, both, indel) }
+	nw := 2 + t.Choose(5)
+	rc.Out.Sample = map[string]any{"stage": "library", "worker": text, "records": n, "batches": len(sizes), "workers": nw}
+	view := func(s *obiseq.BioSequence) string {
+		a := map[string]string{}
+		for k, v := range s.Annotations() {
+			a[k] = fmt.Sprint(v)
+		}
+		return irec{ID: s.Id(), Seq: s.String(), Annot: a}.canon()
+	}
+	var want []string
+	{
+		w := mk()
+		for _, b := range makeBatches(recs, sizes, "sim") {
+			for _, s := range b.Slice() {
+				out, err := w(s)
+				if err != nil {
+					continue
+				}
+				for _, o := range out {
+					want = append(want, view(o))
+				}
+			}
+		}
+	}
+	var got []string
+	batches := makeBatches(recs, sizes, "sim")
+	res := rc.Sim(SimOpts{YieldDensity: 1 + rc.Sched.Choose(3), PoolPolicy: t.Choose(4)}, func() {
+		it := inject(batches, arrival)
+		out := it.MakeIWorker(mk(), false, nw)
+		type ob struct {
+			order int
+			views []string
+		}
+		var all []ob
+		for out.Next() {
+			b := out.Get()
+			o := ob{order: b.Order()}
+			for _, s := range b.Slice() {
+				o.views = append(o.views, view(s))
+			}
+			all = append(all, o)
+		}
+		sort.Slice(all, func(i, j int) bool { return all[i].order < all[j].order })
+		for _, o := range all {
+			got = append(got, o.views...)
+		}
+		obiiter.WaitForLastPipe()
+	})
+	rc.Out.Nontrivial = res.Contended > 0
+	rc.Out.Key = fmt.Sprintf("libw/%s/%d/%d/%s", text, n, nw, res.Sig)
+	rc.Probe("library_worker_stage")
+	class := "C05/library[worker:MatchPattern]"
+	if !rc.Liveness(res, class) {
+		return
+	}
+	if res.Exited {
+		rc.Violate(class+"/unexpected-exit", "MakeIWorker(%s) with %d workers ended the process: %s", text, nw, describeExit(res))
+		return
+	}
+	if !equalStrings(got, want) {
+		rc.Violate(class+"/worker-depends-on-parallelism", "MakeIWorker(%s) with %d workers over %d batches does not leave the records as the same worker applied sequentially does: %s",
+			text, nw, len(sizes), firstDiff(got, want))
+	}
+}
+
 func c05Library(rc *RunCtx, t *simrt.Tape) {
+	if t.Choose(4) == 3 {
+		c05LibraryWorker(rc, t)
+		return
+	}
 	n := 20 + t.Choose(100)
 	recs := annotatedRecs(t, n, t.Choose(2) == 1)
 	var sizes []int
